@@ -261,7 +261,8 @@ class Responder:
         body = (self.spec.get("llm_body") or {}).get(tok or "")
         if body is not None:
             return "LLM[%s%s] %s" % (kind, tok or "#none#", body)
-        return "LLM[%s%s] generated answer" % (kind, tok or "#none#")
+        tail = (self.spec.get("llm_suffix") or {}).get(tok or "")
+        return "LLM[%s%s] generated answer%s" % (kind, tok or "#none#", (" ~%s~" % tail) if tail else "")
 
     def intent_for(self, tok):
         it = self.intents.get(tok or "", "free")
